@@ -133,3 +133,16 @@ Definition chk_e2e (c : list pauli * list pauli * list (list pauli) * list (list
               end) obs expected
   | _ => false
   end.
+
+(* born2: the two-qubit state-vector specification used by c11_born_two_qubits vs qiskit's Statevector:
+   (8 integer coordinates of the state, general letters g, [(register word, probability)] from qiskit after the
+   rotations, [(Pauli letters, expectation value)] from qiskit).  Depends on Model/StateVec2.v only. *)
+From CKT Require Import Model.StateVec2.
+Open Scope Q_scope.
+Definition word_weight (law : list (N * Q)) (w : N) : Q :=
+  fold_right (fun bp acc => if N.eqb (fst bp) w then snd bp + acc else acc) 0 law.
+Close Scope Q_scope.
+Definition chk_born2 (c : sv2 * list nat * list (N * Q) * list (list nat * Q)) : bool :=
+  let '(s, g, law, evs) := c in
+  forallb (fun wp => close (word_weight (sv2_law s g) (fst wp)) (snd wp)) law &&
+  forallb (fun me => close (sv2_ev s (fst me)) (snd me)) evs.
